@@ -102,13 +102,15 @@ def run_C01(ctx):
         ("rel", "P7t", "S0", 4 if q else 6, pr, {}), ("rel", "P4h", "S0", 4 if q else 6, pr, {}), ("rel", "P4d", "S0", 5 if q else 7, pr, {}), ("rel", "P4d", "S6", 5 if q else 7, pr, {}),
         ("rel", "P2", "S9", 3 if q else 4, [], {}), ("rel", "P8f", "S10", 4 if q else 5, pr, {}), ("dbg", "P8f", "S10", 3 if q else 4, pr, {}), ("rel", "P8g", "S11", 4 if q else 5, pr, {}), ("rel", "P8g", "S11", 3 if q else 4, pr, LAZY),
         ("rel", "P1q", "S12", 5 if q else 6, pr, {}), ("sec", "P1q", "S12", 4 if q else 5, pr, {}),
+        ("rel", "P2g", "S9", 3 if q else 4, [], {}),
+        ("rel", "P8d", "S10", 5 if q else 6, ["--dirty"] + pr, {}),
         ("dbg", "P1", "S0", 4 if q else 6, pr, {}), ("sec", "P1", "S0", 4 if q else 6, pr, {}),
         ("dbg", "P2", "S0", 3 if q else 4, pr, {}), ("sec", "P3r", "S0", 3 if q else 4, pr, {}),
     ]
     grid = [("rel", "entry", not q, {}), ("rel", "align", False, {}), ("dbg", "entry", False, {}), ("sec", "entry", False, {}),
             ("rel", "fillpage", False, {}), ("sec", "fillpage", False, {}), ("dbg", "fillpage", False, {})]
     return mixed_property(ctx, plan, grid,
-        rule="P1q from S12: page-queue transitions of a small class served through the direct-page table: a 512-byte page heads the full queue, the 1024-byte queue is [B exhausted but not yet looked at, A back from the full queue]; operations malloc(1024), malloc(64), collect, free(i) and free_page_of(i) (every live block of one page in one operation) up to depth D. P8g from S11: three adjacent 3 MiB pages and a 1 MiB guard block in one segment; released in any order they coalesce into one span covering whole 64-slice fields of the segment's commit and purge masks, 9 MiB are allocated over it, collected and purged (also with lazy commit). P8f from S10: a segment filled to its end with 1 MiB pages; release / re-use / collect / clock ticks at its far end (last field of the commit and purge masks). P2 from S9: a 4 GiB arena whose first block holds a live segment and whose blocks 1..63 are taken, so that new segments get arena block indices >= 64 (second bitmap field). fillpage: for every size class up to 1 KiB and seven consecutive pages of it, the page is filled to its very last block while the next slice holds the page of a larger class (first block at the start of the slice); every block is checked against all live ones. inputs: every allocation entry point (30) x boundary size grid x release variant, and the (size, alignment, offset) grid of C03, in carried-over heap states; histories: all sequences of operations of each profile alphabet (P1 page life-cycle {malloc 8K/48, fill, free(i), collect}, P2 spans {64K,100K,1M,17M,40M}, P3 small, P3r realloc, P7t threads, P4h heaps) up to depth D from start states S0..S4; node oracle: every live block's whole usable range holds its pattern, new blocks are disjoint from live ones, aligned, inside accessible memory.",
+        rule="P8d from S10 with dirtying: a 100 MiB block is filled with 0xFF and released, then 17 MiB and 1 MiB blocks need fresh segments on the arena blocks it occupied (a new segment's header must inherit nothing). P2g from S9: a 2040 MiB block (exactly 64 arena blocks: one whole bitmap field of the 4 GiB arena) next to 17 MiB blocks (blocks above 256 MiB carry their pattern in the first and last 4 KiB and one word per MiB). P1q from S12: page-queue transitions of a small class served through the direct-page table: a 512-byte page heads the full queue, the 1024-byte queue is [B exhausted but not yet looked at, A back from the full queue]; operations malloc(1024), malloc(64), collect, free(i) and free_page_of(i) (every live block of one page in one operation) up to depth D. P8g from S11: three adjacent 3 MiB pages and a 1 MiB guard block in one segment; released in any order they coalesce into one span covering whole 64-slice fields of the segment's commit and purge masks, 9 MiB are allocated over it, collected and purged (also with lazy commit). P8f from S10: a segment filled to its end with 1 MiB pages; release / re-use / collect / clock ticks at its far end (last field of the commit and purge masks). P2 from S9: a 4 GiB arena whose first block holds a live segment and whose blocks 1..63 are taken, so that new segments get arena block indices >= 64 (second bitmap field). fillpage: for every size class up to 1 KiB and seven consecutive pages of it, the page is filled to its very last block while the next slice holds the page of a larger class (first block at the start of the slice); every block is checked against all live ones. inputs: every allocation entry point (30) x boundary size grid x release variant, and the (size, alignment, offset) grid of C03, in carried-over heap states; histories: all sequences of operations of each profile alphabet (P1 page life-cycle {malloc 8K/48, fill, free(i), collect}, P2 spans {64K,100K,1M,17M,40M}, P3 small, P3r realloc, P7t threads, P4h heaps) up to depth D from start states S0..S4; node oracle: every live block's whole usable range holds its pattern, new blocks are disjoint from live ones, aligned, inside accessible memory.",
         assumptions=COMMON_ASSUME + ["free(i) is enumerated for all i while at most `free_window` blocks are live, else for the first and last window/2"])
 
 # ------------------------------------------------------------------------------------------------
@@ -165,14 +167,44 @@ def run_C05(ctx):
     seq = [("rel", "P3r", "S0", 4 if q else 6, [] if q else ["--prune"], {}), ("rel", "P3r", "S1", 3 if q else 4, [], {}),
            ("rel", "P5m", "S7", 3 if q else 5, [] if q else ["--prune"], {}), ("rel", "P5m", "S0", 4 if q else 6, [] if q else ["--prune"], {})]
     return mixed_property(ctx, seq, grid,
-        rule="all ordered (old,new) pairs over the boundary size grid x 12 realloc-family variants (quick: mi_realloc on all pairs, the others on 1/6 of them); per case: result non-NULL, usable>=new, first min(old,new) bytes equal, grown part of zero-tracked blocks zero, heap-walk block count unchanged (old released iff pointer changed), new block reported live, mi_expand only within usable; every 7th case additionally a failing call (size > PTRDIFF_MAX / overflowing count) leaves the block live and intact, mi_reallocf frees it; plus P3r sequences.",
+        rule="(new-handler cases: mi_new, mi_new_n, mi_new_nothrow and mi_new_aligned with alignments 64, 4 MiB and 64 MiB must return a block -- with the requested alignment -- after exactly two handler calls when the OS refuses until then) all ordered (old,new) pairs over the boundary size grid x 12 realloc-family variants (quick: mi_realloc on all pairs, the others on 1/6 of them); per case: result non-NULL, usable>=new, first min(old,new) bytes equal, grown part of zero-tracked blocks zero, heap-walk block count unchanged (old released iff pointer changed), new block reported live, mi_expand only within usable; every 7th case additionally a failing call (size > PTRDIFF_MAX / overflowing count) leaves the block live and intact, mi_reallocf frees it; plus P3r sequences.",
         assumptions=COMMON_ASSUME + ["mi_expand is expected to succeed only in builds without padding (rel)"])
 
 def run_C06(ctx):
     q = ctx.quick
+    res = run_C06_grid(ctx)
+    # the same malformed / oversized requests through the overridden C and C++ entry points of the real override builds (preloaded library, static object)
+    try:
+        so, dyn, sta = ov_build(ctx)
+        for mode in ("preload", "static", "preload-secure"):
+            r, rc, err = ov_run(so, dyn, sta, mode, extra=["codes"])
+            if r is None: res.setdefault("infra", []).append(f"override run ({mode}, codes) did not run: rc={rc} {err}"); continue
+            res["coverage"]["evaluations"] += r["pairs"]; res["coverage"]["samples"].append(f"override build, {mode}: 30 malformed/oversized requests through posix_memalign, reallocarray, calloc and the nothrow operator new forms")
+            for v in r["violations"]:
+                import hashlib
+                rp = os.path.join(ctx.out, "replays", f"C06-ov-{hashlib.sha1((mode + v).encode()).hexdigest()[:8]}.txt")
+                open(rp, "w").write(f"# replay file for property C06\nharness ov_test\nmode {mode}\nmsg {v}\n")
+                res["violations"].append(dict(key=f"C06:override:{mode}:{v.split(':')[0][:60]}", msg=v, replay=rp))
+    except RuntimeError as ex:
+        res.setdefault("infra", []).append(str(ex))
+    return res
+
+def replay_C06(ctx, path):
+    lines = open(path).read().splitlines()
+    if not any(l.startswith("harness ov_test") for l in lines): return grid_replay(ctx, path)
+    mode = next((l.split()[1] for l in lines if l.startswith("mode ")), "preload")
+    msg = next((l[4:] for l in lines if l.startswith("msg ")), "")
+    so, dyn, sta = ov_build(ctx)
+    res, rc, err = ov_run(so, dyn, sta, mode, extra=["codes"])
+    hit = [v for v in (res or {}).get("violations", []) if v.split(":")[0] == msg.split(":")[0]]
+    print("REPLAY violation " + hit[0] if hit else "REPLAY no violation")
+    return 1 if hit else 0
+
+def run_C06_grid(ctx):
+    q = ctx.quick
     grid = [("rel", "badargs", False, {}), ("sec", "badargs", False, {}), ("dbg", "badargs", False, {}), ("rel", "entry", not q, {})]
     return mixed_property(ctx, [], grid,
-        rule="badargs: all (count,size) pairs from a 16-value boundary set (and around SIZE_MAX/size, PTRDIFF_MAX/size) whose product overflows or exceeds PTRDIFF_MAX x 16 count*size entry points; 39 sizes above PTRDIFF_MAX x 22 size entry points; 17 non-power-of-two/zero alignments x 5 sizes x 12 aligned entry points; posix_memalign alignments 1,2,4. Oracle: NULL (posix_memalign EINVAL/ENOMEM with the out-parameter equal to its sentinel, errno for reallocarray/reallocarr), heap-walk block set identical before/after, the block being re-allocated still live and intact. entry: converse -- every allocation entry point x size grid succeeds when the OS refuses nothing.",
+        rule="(plus: the malformed / oversized requests of the override test -- posix_memalign codes with untouched out-parameter, reallocarray/calloc overflow, every nothrow operator new form with unsatisfiable sizes -- against the real preloaded library, the static override object and the hardened preloaded library) badargs: all (count,size) pairs from a 16-value boundary set (and around SIZE_MAX/size, PTRDIFF_MAX/size) whose product overflows or exceeds PTRDIFF_MAX x 16 count*size entry points; 39 sizes above PTRDIFF_MAX x 22 size entry points; 17 non-power-of-two/zero alignments x 5 sizes x 12 aligned entry points; posix_memalign alignments 1,2,4. Oracle: NULL (posix_memalign EINVAL/ENOMEM with the out-parameter equal to its sentinel, errno for reallocarray/reallocarr), heap-walk block set identical before/after, the block being re-allocated still live and intact. entry: converse -- every allocation entry point x size grid succeeds when the OS refuses nothing.",
         assumptions=COMMON_ASSUME + ["mi_new_n / mi_new_reallocn are excluded: by contract they abort/throw instead of returning NULL",
                                      "realloc_aligned family with alignment <= sizeof(void*) is 'no alignment requested' by design and excluded; debug builds: alignment 0 for mi_memalign/mi_aligned_alloc traps inside an assertion (excluded in the dbg variant)"])
 
@@ -199,7 +231,7 @@ def run_C12(ctx):
         ("dbg", "P7t", "S5", 3 if q else 4, ["--observe", "abandoned"], ABN),
     ]
     return seq_property(ctx, plan,
-        rule="abandoned-walk observer additionally: the sub-process counter of abandoned segments equals the segments marked in the arenas plus those linked in the OS list; a walk stopped by the visitor at call 2 / 3 is followed by a complete walk that must equal the first one. All operation sequences of the profiles up to depth D; at every node, in a throw-away fork, every heap of the thread is walked with mi_heap_visit_blocks and compared with the reference model (each live block reported once by an enclosing range, no range without a live block except heap descriptors in the backing heap, area.used sum == visited blocks, early stop after k visitor calls for k=1..6); hole patterns: 8-block pages (all masks reachable), 64 x 1 KiB (one full bitmap word) and 127 x 512 B pages with free_every(k,phase); abandoned walk: blocks of exited threads reported exactly once by mi_abandoned_visit_blocks or by the adopting heap, for arena segments (one and two bitmap fields, start state S5) and OS segments.",
+        rule="(a walk of the blocks of terminated threads is stopped at call 1 -- an area callback --, 2, 3 and 4, each followed by a complete walk) abandoned-walk observer additionally: the sub-process counter of abandoned segments equals the segments marked in the arenas plus those linked in the OS list; a walk stopped by the visitor at call 2 / 3 is followed by a complete walk that must equal the first one. All operation sequences of the profiles up to depth D; at every node, in a throw-away fork, every heap of the thread is walked with mi_heap_visit_blocks and compared with the reference model (each live block reported once by an enclosing range, no range without a live block except heap descriptors in the backing heap, area.used sum == visited blocks, early stop after k visitor calls for k=1..6); hole patterns: 8-block pages (all masks reachable), 64 x 1 KiB (one full bitmap word) and 127 x 512 B pages with free_every(k,phase); abandoned walk: blocks of exited threads reported exactly once by mi_abandoned_visit_blocks or by the adopting heap, for arena segments (one and two bitmap fields, start state S5) and OS segments.",
         assumptions=COMMON_ASSUME + ["states with a pending cross-thread free (remote_free not yet followed by a collect of that heap) only require that no live block is missing; extra reports and used counts are outside the statement there",
                                      "the abandoned-walk runs set MIMALLOC_VISIT_ABANDONED=1 (required by the API) and, where stated, MIMALLOC_MAX_SEGMENT_RECLAIM=0 so that several abandoned segments coexist"])
 
@@ -247,6 +279,9 @@ def run_C13(ctx):
     for env in ({"MIMALLOC_ARENA_EAGER_COMMIT": "0"}, LAZY, {}, {"MIMALLOC_ARENA_EAGER_COMMIT": "0", "MIMALLOC_PURGE_DELAY": "0"}):
         plan.append(("rel", "P8h", "S0", 3 if q else 4, ["--observe", "monitor"], env))
     plan.append(("dbg", "P8h", "S0", 3, ["--observe", "monitor"], {"MIMALLOC_ARENA_EAGER_COMMIT": "0"}))
+    # reclaim-on-free with segments straight from the OS: a forced collect that releases the last page of a segment (behind an adopted page) returns the segment to the OS at once
+    plan.append(("rel", "P7t", "S0", 5 if q else 6, ["--observe", "monitor"] + ([] if q else ["--prune"]), {"MIMALLOC_ABANDONED_RECLAIM_ON_FREE": "1", "MIMALLOC_DISALLOW_ARENA_ALLOC": "1"}))
+    plan.append(("rel", "P7t", "S0", 4 if q else 5, ["--observe", "monitor"], {"MIMALLOC_ABANDONED_RECLAIM_ON_FREE": "1", "MIMALLOC_PURGE_DELAY": "0"}))
     plan.append(("rel", "P8f", "S10", 3 if q else 4, ["--observe", "monitor"], {}))
     plan.append(("rel", "P8g", "S11", 3 if q else 4, ["--observe", "monitor"], LAZY)); plan.append(("sec", "P8g", "S11", 3, ["--observe", "monitor"], {"MIMALLOC_EAGER_COMMIT": "0"}))
     if not q:
@@ -304,12 +339,14 @@ def run_C07(ctx):
             ("rel", "fault", fl, ALAZY), ("sec", "fault", [], ALAZY),
             # large OS pages allowed: the modelled OS refuses every MAP_HUGETLB request, mimalloc falls back to ordinary pages
             ("rel", "fault", [], {"MIMALLOC_ALLOW_LARGE_OS_PAGES": "1"}),
+            # the OS does not honour address hints (misaligned results: release + over-allocate + trim), with and without arenas
+            ("rel", "fault", [], {"VF_IGNORE_HINT": "1"}), ("rel", "fault", [], envs(NOA, {"VF_IGNORE_HINT": "1"})),
             # pairs of failures for one workload (also exercises the known finding "fresh segment kept without pages")
             ("rel", "fault", ["--pairs", "--only-workload", "realloc"], envs(LAZY, P0, NOA))]
     if not q:
         plan += [("rel", "fault", fl, envs(SMALL, P0, {"MIMALLOC_PURGE_DECOMMITS": "0"})), ("sec", "fault", [], NOA), ("dbg", "fault", [], NOA), ("rel", "fault", [], envs(LAZY, SMALL))]
     return os_property(ctx, plan, level="fault_enumeration",
-        rule="for each of 9 workloads (small/medium churn, large, huge, over-aligned huge, threads with exit+reclaim, heaps new/delete/destroy, realloc chains, mixed, 32 arena reservations of 32 MiB followed by blocks of three kinds) the fault-free run counts its N OS calls (mmap/munmap/mprotect/madvise through the shim); then every k < N is run with (a) a single refusal at call k and (b) persistent refusal from call k of mmap / mprotect / madvise / munmap / all kinds (thorough: also every pair k1<k2 of single refusals), under several option settings (default, lazy commit + immediate purge, arenas disabled, small arena) and builds. Oracle per case: no crash; every API result is NULL or a block that passes the full write/read/overlap oracle; live blocks keep their contents; only out-of-memory errors are reported; after the plan is lifted a recovery script allocates and frees blocks of all classes and after a forced collect nothing obtained directly from the OS remains mapped (minus ranges whose munmap the plan itself refused). distinct_nontrivial = cases in which at least one OS call was actually refused.",
+        rule="(two configurations let the modelled OS ignore address hints: hinted mappings come back misaligned and are replaced by trimmed over-allocations) for each of 9 workloads (small/medium churn, large, huge, over-aligned huge, threads with exit+reclaim, heaps new/delete/destroy, realloc chains, mixed, 32 arena reservations of 32 MiB followed by blocks of three kinds) the fault-free run counts its N OS calls (mmap/munmap/mprotect/madvise through the shim); then every k < N is run with (a) a single refusal at call k and (b) persistent refusal from call k of mmap / mprotect / madvise / munmap / all kinds (thorough: also every pair k1<k2 of single refusals), under several option settings (default, lazy commit + immediate purge, arenas disabled, small arena) and builds. Oracle per case: no crash; every API result is NULL or a block that passes the full write/read/overlap oracle; live blocks keep their contents; only out-of-memory errors are reported; after the plan is lifted a recovery script allocates and frees blocks of all classes and after a forced collect nothing obtained directly from the OS remains mapped (minus ranges whose munmap the plan itself refused). distinct_nontrivial = cases in which at least one OS call was actually refused.",
         assumptions=COMMON_ASSUME + ["refusals are ENOMEM (mmap: MAP_FAILED) / EINVAL (munmap); madvise never answers EAGAIN (mimalloc retries EAGAIN forever by design)",
                                      "debug builds: madvise refusals are excluded (a failing decommit is an intended debug assertion)"])
 
@@ -320,6 +357,8 @@ def run_C11(ctx):
     # (the last configuration is the one of the known finding: reset-mode purge with fully lazy commit)
     base.insert(0, {"MIMALLOC_ALLOW_LARGE_OS_PAGES": "1"})     # the modelled OS refuses MAP_HUGETLB: ordinary pages are used and must be given back as usual
     base.append(envs({"MIMALLOC_PURGE_DELAY": "10", "MIMALLOC_PURGE_DECOMMITS": "0", "VF_RESET_ZERO": "1"}, LAZY))
+    # environment answer "address hints are not honoured": hinted mappings land misaligned, mimalloc gives them back and over-allocates
+    base.insert(1, {"VF_IGNORE_HINT": "1"}); base.insert(2, {"VF_IGNORE_HINT": "1", "MIMALLOC_DISALLOW_ARENA_ALLOC": "1"})
     plan = [("rel", "footprint", [], e) for e in base] + [("sec", "footprint", [], {}), ("dbg", "footprint", [], {}), ("dbg", "footprint", [], {"MIMALLOC_DISALLOW_ARENA_ALLOC": "1"})]
     # arena reservations that fail half-way (descriptor allocation refused after the region was mapped): the region must be handed back
     plan += [("rel", "fault", ["--only-workload", "arenas"], {}), ("sec", "fault", ["--only-workload", "arenas"], {})]
@@ -329,7 +368,7 @@ def run_C11(ctx):
             for v in ("rel", "dbg", "sec"):
                 plan.append((v, "footprint", [], envs(a, {"MIMALLOC_PURGE_DELAY": d, "MIMALLOC_PURGE_DECOMMITS": dc, "VF_RESET_ZERO": "1"}, lz)))
     return os_property(ctx, plan, level="model_checking", parallel=4,
-        rule="(fault runs of the workload arenas: 32 x mi_reserve_os_memory_ex(32 MiB) -- the arena descriptors outgrow the static metadata area so that later ones are one-page OS allocations -- with every OS call refused once / persistently from there on: a region that was mapped but could not be registered must be unmapped again; after recovery + free-all + forced collect nothing outside arenas may stay mapped) (workload staggered: 20 + 100 + 40 MiB; the 100 MiB block is released and force-collected while the lower block is live, then the next, then everything) 9 allocate-everything/free-everything workloads (small, large, huge 17/40/100/33 MiB, over-aligned huge up to 128 MiB alignment, 8 and 40 sequential threads that exit with live blocks, heaps, realloc chains, mixed) x option configurations (arenas enabled / disabled / too small, purge delay 10/0/-1, decommit or reset, eager or lazy commit) x 4 repetitions; after each repetition + mi_collect(true) the shim's mapping table is inspected: (1) no mapping outside arena areas survives except segment-map parts and arena descriptors, (2) unless purge_delay=-1 no page inside an arena is resident (mincore), (3) total mapped bytes and resident bytes do not grow from repetition r to r+1.",
+        rule="(configurations with VF_IGNORE_HINT=1: the modelled OS does not honour address hints -- a hinted mapping lands 68 KiB past a 32 MiB boundary --, so that mimalloc has to give it back, over-allocate and trim) (fault runs of the workload arenas: 32 x mi_reserve_os_memory_ex(32 MiB) -- the arena descriptors outgrow the static metadata area so that later ones are one-page OS allocations -- with every OS call refused once / persistently from there on: a region that was mapped but could not be registered must be unmapped again; after recovery + free-all + forced collect nothing outside arenas may stay mapped) (workload staggered: 20 + 100 + 40 MiB; the 100 MiB block is released and force-collected while the lower block is live, then the next, then everything) 9 allocate-everything/free-everything workloads (small, large, huge 17/40/100/33 MiB, over-aligned huge up to 128 MiB alignment, 8 and 40 sequential threads that exit with live blocks, heaps, realloc chains, mixed) x option configurations (arenas enabled / disabled / too small, purge delay 10/0/-1, decommit or reset, eager or lazy commit) x 4 repetitions; after each repetition + mi_collect(true) the shim's mapping table is inspected: (1) no mapping outside arena areas survives except segment-map parts and arena descriptors, (2) unless purge_delay=-1 no page inside an arena is resident (mincore), (3) total mapped bytes and resident bytes do not grow from repetition r to r+1.",
         assumptions=COMMON_ASSUME + ["threads of the multi-threaded workloads run one after the other (deterministic schedule)", "bounded to 4 repetitions (the mapped-byte sequence is constant from repetition 1 on in every run, reported in the samples)"])
 
 def run_C18(ctx):
@@ -420,13 +459,15 @@ def run_C02(ctx):
     if q: plan += [("rel", ("family", 0, 700, ), 1, 0, {})]
     else: plan += [("rel", ("family", 0, 750), 2, 1, {}), ("rel", "H2", 3, 2, {}), ("rel", "H3", 3, 2, {}), ("rel", "H1", 3, 2, {}), ("rel", "H5", 3, 2, {}), ("dbg", "H5", 2, 1, {}), ("sec", "H2", 2, 1, {})]
     race = race_jobs(ctx, [(p, {}) for p in ("H1", "H2", "H3", "H4", "H5", "D1")] + [("E5", RF), ("E1", RF), (("family", 0, 700 if q else 750), {})])
-    return conc_property(ctx, conc_jobs(ctx, plan), extra_jobs=race,
+    # a clause that needs no interleaving: memory of a released block re-used for the header of another thread's / a later segment
+    reuse = seq_jobs(ctx, [("rel", "P8d", "S10", 5, ["--dirty"], {})])
+    return conc_property(ctx, conc_jobs(ctx, plan), extra_jobs=race + reuse,
         rule=RACE_NOTE.strip() + " Programs: H7/H7f (debug and secure builds: blocks of 1..7 bytes between live 8-byte neighbours are freed by another thread -- the build has to make room for its free-list link inside them -- while the owner allocates, frees and collects; H7f with the page in the full queue so that the frees pass through the owner's delayed list), E3c (target_segments_per_thread=2, reclaim-on-free: a thread at its segment target has a page in the full queue with a cross-thread free pending in the heap's delayed list and an empty size queue; an allocation that needs a fresh segment force-abandons that page's segment; the other thread adopts it by freeing into it; both then allocate from the class), AB1/AB2 (an abandoned segment whose pending purge is carried out by a visiting thread -- forced collect / search for a segment that finds it unsuitable -- while another thread adopts it by reclaim-on-free and allocates in the span), H1 (remote frees into a page with free blocks vs owner malloc through fast and generic path), H2 (page in the full queue: first remote free goes to the heap's delayed list, second to the page list, vs owner collect+malloc, 3 threads), H3 (two full pages, frees racing the owner's delayed-free take-over), H4 (huge block freed remotely vs owner collect/alloc), H5 (last blocks of a full page freed remotely and locally), D1 (heap delete vs frees), E1/E5 (frees into abandoned segments with reclaim-on-free), and a generated family: every program with 2 threads x 2 ops or 3 threads x 1 op over {malloc 8K, free a, free b, collect(0), collect(1)} on two shared blocks of one full page (750 programs). All interleavings up to the preemption bound (quick 2; family 1) with up to 1 spurious weak-CAS failure. Oracle: a block leaves the live set immediately before its free call and enters it after malloc returns; every returned range must be disjoint from all live blocks; every live block's full usable range must hold its pattern after every operation of every thread; no crash, assertion or error callback.",
         assumptions=COMMON_ASSUME[:2] + SCHED_ASSUME)
 
 def run_C08(ctx):
     q = ctx.quick
-    plan = [("rel", p, 2, 1, {}) for p in ("H2", "H3", "H5", "D1", "D3")] + [("rel", "PC", 2, 0, {}), ("rel", "R1", 2 if q else 3, 0, RF), ("rel", "R2", 2 if q else 3, 0, RF), ("rel", "R3", 2 if q else 3, 0, {}), ("sec", "R3", 1 if q else 2, 0, {}), ("rel", "R4", 2 if q else 3, 0, {}), ("dbg", "R4", 1 if q else 2, 0, {})] + ([] if q else [("rel", "PCs", 3, 0, {})])
+    plan = [("rel", p, 2, 1, {}) for p in ("H2", "H3", "H5", "D1", "D3")] + [("rel", "PC", 2, 0, {}), ("rel", "R1", 2 if q else 3, 0, RF), ("rel", "R2", 2 if q else 3, 0, RF), ("rel", "R3", 2 if q else 3, 0, {}), ("sec", "R3", 1 if q else 2, 0, {}), ("rel", "R4", 2 if q else 3, 0, {}), ("dbg", "R4", 1 if q else 2, 0, {}), ("rel", "R5", 1, 0, RF), ("dbg", "R5", 1, 0, RF)] + ([] if q else [("rel", "PCs", 3, 0, {})])
     plan += [("dbg", "H2", 1 if q else 2, 1, {})]
     # frees racing with the owner's exit: nothing may be lost either (final leak check of the E programs)
     plan += [("rel", "E1", 2, 0, {}), ("rel", "E1", 2, 0, RF), ("rel", "E5", 2, 0, RF)]
@@ -434,7 +475,7 @@ def run_C08(ctx):
     else: plan += [("rel", ("family", 0, 750), 2, 1, {}), ("rel", "H2", 3, 1, {}), ("rel", "H3", 3, 2, {}), ("sec", "H3", 2, 1, {})]
     race = race_jobs(ctx, [(p, {}) for p in ("H2", "H3", "H5", "D1", "D3", "PC")] + [("R1", RF), ("R2", RF)])
     return conc_property(ctx, conc_jobs(ctx, plan), extra_jobs=race,
-        rule=RACE_NOTE.strip() + " R4: a small class (1024 bytes, served by the fast path through the direct-page table, so a page that hands out its last block stays unseen at the head of its queue): page A in the full queue, head page B exhausted; another thread frees three blocks of A; the owner's next allocations must find A behind B instead of taking a fresh page. R3: as R1 without adoption, and the page that becomes full also holds a live over-allocated aligned block (interior pointer, page flag has_aligned): the remote frees must make it usable again all the same. A (nothing lost): programs H2, H3, H5, D1, D3 and the generated family (see C02): after the explored phase every remaining block is freed, the owner runs mi_heap_collect(heap, true) and then its heap must hold no page (page_count == 0 and no area with used > 0). B (no blow-up): producer/consumer PC: rounds of 8 blocks of 8 KiB (one page), the producer starts round r only after the consumer freed round r-2, six rounds, the owner never collects; the number of pages held by the owner after each round must stay <= 5 (3 pages of live/in-flight blocks + warm-up page + one retired page) in every interleaving (a stuck page per round gives >= 7).",
+        rule=RACE_NOTE.strip() + " R5 (reclaim-on-free, bound 1: three threads): a page of an exiting thread becomes empty only during the exit while its segment survives; the adopter builds a new page in the recycled slice, fills it and a second page; three remote frees into the first must be re-usable without a new page. R4: a small class (1024 bytes, served by the fast path through the direct-page table, so a page that hands out its last block stays unseen at the head of its queue): page A in the full queue, head page B exhausted; another thread frees three blocks of A; the owner's next allocations must find A behind B instead of taking a fresh page. R3: as R1 without adoption, and the page that becomes full also holds a live over-allocated aligned block (interior pointer, page flag has_aligned): the remote frees must make it usable again all the same. A (nothing lost): programs H2, H3, H5, D1, D3 and the generated family (see C02): after the explored phase every remaining block is freed, the owner runs mi_heap_collect(heap, true) and then its heap must hold no page (page_count == 0 and no area with used > 0). B (no blow-up): producer/consumer PC: rounds of 8 blocks of 8 KiB (one page), the producer starts round r only after the consumer freed round r-2, six rounds, the owner never collects; the number of pages held by the owner after each round must stay <= 5 (3 pages of live/in-flight blocks + warm-up page + one retired page) in every interleaving (a stuck page per round gives >= 7).",
         assumptions=COMMON_ASSUME[:2] + SCHED_ASSUME + ["PC sets generic_count=99 before each round so that the administrative step that mimalloc performs every 100 generic allocations happens once per round (time compression of a long run)", "the no-blow-up clause is checked for six rounds"])
 
 def run_C09(ctx):
@@ -446,11 +487,12 @@ def run_C09(ctx):
         plan.append(("rel", "E2", 2, 0, env))
     plan += [("rel", "E3", 1 if q else 2, 0, {}), ("rel", "E3", 1 if q else 2, 0, RF), ("dbg", "E1", 1 if q else 2, 0, RF), ("dbg", "E5", 1 if q else 2, 0, RF), ("rel", "AB1", 2, 0, RF),
              ("rel", "E6", 1 if q else 2, 0, envs(NOARENA, RF, NORECL)), ("rel", "E6", 1 if q else 2, 0, envs(RF, NORECL)), ("rel", "E6", 1, 0, envs(NOARENA, NORECL)), ("dbg", "E6", 1, 0, envs(NOARENA, RF, NORECL)),
-             ("rel", "E7", 1 if q else 2, 0, {}), ("rel", "E7", 1 if q else 2, 0, NORECL), ("dbg", "E7", 1, 0, {})]
+             ("rel", "E7", 1 if q else 2, 0, {}), ("rel", "E7", 1 if q else 2, 0, NORECL), ("dbg", "E7", 1, 0, {}),
+             ("rel", "E8", 2, 0, {"MIMALLOC_ARENA_RESERVE": "32MiB"}), ("dbg", "E8", 1, 0, {"MIMALLOC_ARENA_RESERVE": "32MiB"})]
     if not q: plan += [("rel", "E1", 3, 1, RF), ("rel", "E5", 3, 1, RF), ("sec", "E1", 2, 1, RF), ("dbg", "E3", 2, 0, NOARENA), ("rel", "E3", 2, 0, ALL)]
     race = race_jobs(ctx, [(p, RF) for p in ("E1", "E2", "E3", "E4", "E5", "AB1")] + [("E1", {}), ("E2", NOARENA)])
     return conc_property(ctx, conc_jobs(ctx, plan), extra_jobs=race,
-        rule=RACE_NOTE.strip() + " E7: two sub-processes (mi_subproc_new / mi_subproc_add_current_thread) with one abandoned arena segment each: a thread of the second one collects (its scan passes over the segment of the main sub-process), the last block of the second sub-process' segment is then freed by a thread of the main one, and a forced collect in the second sub-process has to find and release that segment; nothing may stay mapped. E6: three segments, two of them abandoned; a free adopts the most recently abandoned one, the third thread exits, then the block in the oldest abandoned segment is freed (with segments straight from the OS this exercises unlink-last / append / lookup on the list of abandoned OS segments); nothing may stay mapped. AB1: a forced collect visits (and purges) an abandoned segment while another thread adopts it by freeing one of its blocks and allocates in its pending-purge span; programs E1 (thread exit vs remote free of one of its blocks vs an allocation that may adopt), E2 (two segments left by finished threads; two threads allocate and free into them and may both adopt), E3 (forced abandonment through mi_collect_reduce with two segments vs remote frees into both), E4 (as E1 with the allocating thread in another sub-process), E5 (two remote frees into one abandoned segment, then both freeing threads allocate) x configurations {arena segments, OS segments (arenas disabled), reclaim-on-free on/off, visit_abandoned}. Oracle: blocks of the terminated thread keep their contents and can be freed by others; anything handed out after adoption is disjoint from all live blocks (two adopters would hand out the same memory); at the end, after all blocks are freed, all threads ended and the main thread force-collected, no arena block is in use or marked abandoned, the abandoned count is 0 and no segment-sized OS mapping is left.",
+        rule=RACE_NOTE.strip() + " E8 (32 MiB arena reserve): the exiting thread leaves a small block in an arena segment and a 40 MiB block in a segment straight from the OS; a second thread frees the big one, then a forced collect of a third thread -- which walks the arena's abandoned segments first (the small block is still live) and then the list of abandoned OS segments -- must have returned its mapping. E7: two sub-processes (mi_subproc_new / mi_subproc_add_current_thread) with one abandoned arena segment each: a thread of the second one collects (its scan passes over the segment of the main sub-process), the last block of the second sub-process' segment is then freed by a thread of the main one, and a forced collect in the second sub-process has to find and release that segment; nothing may stay mapped. E6: three segments, two of them abandoned; a free adopts the most recently abandoned one, the third thread exits, then the block in the oldest abandoned segment is freed (with segments straight from the OS this exercises unlink-last / append / lookup on the list of abandoned OS segments); nothing may stay mapped. AB1: a forced collect visits (and purges) an abandoned segment while another thread adopts it by freeing one of its blocks and allocates in its pending-purge span; programs E1 (thread exit vs remote free of one of its blocks vs an allocation that may adopt), E2 (two segments left by finished threads; two threads allocate and free into them and may both adopt), E3 (forced abandonment through mi_collect_reduce with two segments vs remote frees into both), E4 (as E1 with the allocating thread in another sub-process), E5 (two remote frees into one abandoned segment, then both freeing threads allocate) x configurations {arena segments, OS segments (arenas disabled), reclaim-on-free on/off, visit_abandoned}. Oracle: blocks of the terminated thread keep their contents and can be freed by others; anything handed out after adoption is disjoint from all live blocks (two adopters would hand out the same memory); at the end, after all blocks are freed, all threads ended and the main thread force-collected, no arena block is in use or marked abandoned, the abandoned count is 0 and no segment-sized OS mapping is left.",
         assumptions=COMMON_ASSUME[:2] + SCHED_ASSUME + ["thread exit is the explicit mi_thread_done() call; the pthread-key destructor later finds the heap already released"])
 
 def run_C10(ctx):
@@ -460,12 +502,13 @@ def run_C10(ctx):
         ("rel", "P4h", "S0", 5 if q else 7, ["--observe", "owner,walk"] + pr, {}), ("rel", "P4h", "S4", 4 if q else 6, ["--observe", "owner,walk"] + pr, {}),
         ("rel", "P4h", "S1", 4 if q else 5, ["--observe", "owner"], {}), ("rel", "P4h", "S3", 4 if q else 5, ["--observe", "owner"], {}),
         ("dbg", "P4h", "S0", 4 if q else 6, ["--observe", "owner,walk"] + pr, {}), ("sec", "P4h", "S0", 4 if q else 6, ["--observe", "owner"] + pr, {}),
+        ("rel", "P4o", "S0", 5 if q else 6, ["--observe", "owner,walk"] + pr, {}), ("dbg", "P4o", "S0", 4, ["--observe", "owner"], {}),
     ]
     cplan = [("rel", p, 2, 1, {}) for p in ("D1", "D2", "D3")] + [("dbg", "D1", 1 if q else 2, 0, {}), ("sec", "D3", 1 if q else 2, 0, {})]
     if not q: cplan += [("rel", "D1", 3, 1, {}), ("rel", "D3", 3, 1, {}), ("rel", "D2", 3, 1, {})]
     race = race_jobs(ctx, [(p, {}) for p in ("D1", "D2", "D3")])
     res = conc_property(ctx, conc_jobs(ctx, cplan),
-        rule=RACE_NOTE.strip() + " Sequential part: all sequences over {heap_new (2 slots), heap_malloc(h,8K/48), malloc (default heap), free(i), heap_delete(h), heap_destroy(h), set_default(h), collect(1)} up to depth D from start states S0/S1/S3/S4; model: blocks carry a heap id, delete relabels to the backing heap, destroy removes exactly that heap's blocks, deleting the default heap falls back to the backing heap; node oracle: all live blocks intact, mi_heap_contains_block / mi_heap_check_owned true for exactly the model's heap, heap walks agree with the model. Concurrent part: D1 (mi_heap_delete of a heap with a full page while two other threads free blocks of it), D2 (mi_heap_collect forced / not forced + allocation vs remote frees), D3 (delete of a heap with two full pages vs frees into both): every interleaving up to the preemption bound; oracle: no crash, live blocks intact, and after everything is freed and the owner collected its backing heap holds no page (a free that landed on the deleted heap's list would be lost).",
+        rule=RACE_NOTE.strip() + " P4o: the heap alphabet with heap_malloc_aligned(h1, 1000, 64 MiB) (a mapping of its own that the kernel places far above the arenas, outside the range of mimalloc's segment map). Sequential part: all sequences over {heap_new (2 slots), heap_malloc(h,8K/48), malloc (default heap), free(i), heap_delete(h), heap_destroy(h), set_default(h), collect(1)} up to depth D from start states S0/S1/S3/S4; model: blocks carry a heap id, delete relabels to the backing heap, destroy removes exactly that heap's blocks, deleting the default heap falls back to the backing heap; node oracle: all live blocks intact, mi_heap_contains_block / mi_heap_check_owned true for exactly the model's heap, heap walks agree with the model. Concurrent part: D1 (mi_heap_delete of a heap with a full page while two other threads free blocks of it), D2 (mi_heap_collect forced / not forced + allocation vs remote frees), D3 (delete of a heap with two full pages vs frees into both): every interleaving up to the preemption bound; oracle: no crash, live blocks intact, and after everything is freed and the owner collected its backing heap holds no page (a free that landed on the deleted heap's list would be lost).",
         assumptions=COMMON_ASSUME + SCHED_ASSUME, extra_jobs=seq_jobs(ctx, plan) + race)
     return res
 
@@ -474,10 +517,10 @@ def run_C14(ctx):
     P0 = {"MIMALLOC_PURGE_DELAY": "0"}
     plan = [("rel", "A1", 2, 1, {}), ("rel", "A3", 2, 1, {}), ("rel", "A2", 2, 1, {}), ("rel", "A2", 2, 1, P0), ("rel", "A1", 2, 0, P0), ("dbg", "A3", 1 if q else 2, 0, {}), ("dbg", "A2", 1 if q else 2, 0, P0)]
     if not q: plan += [("rel", "A1", 3, 1, {}), ("rel", "A3", 3, 2, {}), ("rel", "A2", 3, 1, P0), ("sec", "A2", 2, 1, P0)]
-    bjobs = conc_jobs(ctx, [("rel", "B1", 3 if q else 6, 0, {}), ("rel", "B2", 2 if q else 3, 0, {}), ("rel", "B3", 2 if q else 3, 0, {})], harness="h_bitmap") if os.path.exists(os.path.join(ctx.verif, "harness", "h_bitmap.c")) else []
+    bjobs = conc_jobs(ctx, [("rel", "B1", 3 if q else 6, 0, {}), ("rel", "B2", 2 if q else 3, 0, {}), ("rel", "B3", 2 if q else 3, 0, {}), ("rel", "B4", 2 if q else 3, 0, {})], harness="h_bitmap") if os.path.exists(os.path.join(ctx.verif, "harness", "h_bitmap.c")) else []
     race = race_jobs(ctx, [("A1", {}), ("A2", {}), ("A3", {}), ("A2", P0), ("A1", P0)])
     return conc_property(ctx, conc_jobs(ctx, plan) + bjobs, extra_jobs=race,
-        rule=RACE_NOTE.strip() + " Arena seam (real _mi_arena_alloc_aligned / _mi_arena_free / _mi_arenas_collect on a private exclusive arena): A1 (70-block arena with 60 blocks taken: three threads claim 5, 4 and 3 blocks so that claims cross the bitmap word boundary and compete, two free again), A3 (a cross-word claim loses its final word to a competing claim and rolls back its initial word while a third thread frees other blocks of that word), A2 (arena free -- which schedules or performs a purge -- racing allocations that may take the same blocks, plus a collector after a clock tick), with purge delay default and 0. Oracle: successful claims are pairwise disjoint and inside the arena; the first and last 64 KiB of every claimed range keep their pattern (a purge racing a claim would zero it); at quiescence the in-use bitmap holds only the left-over bits and the whole arena can be allocated in one piece.",
+        rule=RACE_NOTE.strip() + " B4 (bitmap seam): claims of exactly one whole field (64 bits) in fields whose bit 0 is free, racing each other, a 3-bit claim and a purge-style claim of the field. Arena seam (real _mi_arena_alloc_aligned / _mi_arena_free / _mi_arenas_collect on a private exclusive arena): A1 (70-block arena with 60 blocks taken: three threads claim 5, 4 and 3 blocks so that claims cross the bitmap word boundary and compete, two free again), A3 (a cross-word claim loses its final word to a competing claim and rolls back its initial word while a third thread frees other blocks of that word), A2 (arena free -- which schedules or performs a purge -- racing allocations that may take the same blocks, plus a collector after a clock tick), with purge delay default and 0. Oracle: successful claims are pairwise disjoint and inside the arena; the first and last 64 KiB of every claimed range keep their pattern (a purge racing a claim would zero it); at quiescence the in-use bitmap holds only the left-over bits and the whole arena can be allocated in one piece.",
         assumptions=COMMON_ASSUME[:2] + SCHED_ASSUME)
 
 def run_C16(ctx):
@@ -523,7 +566,7 @@ def run_C20(ctx):
                     viol.append(dict(key=f"{ctx.pid}:exec-other-option:{name}", msg=f"MIMALLOC_{name.upper()}={val} changed other options: {others[:3]}", replay=""))
                 if len(exec_samples) < 2: exec_samples.append(f"exec: MIMALLOC_{name.upper()}={val} -> {name}={got.get(name)}")
     cov = dict(evaluations=tot["nodes"] + execs, distinct_nontrivial=tot["nontrivial"],
-        rule="(a) every option index and legacy name x {20 boolean spellings, 18 integer forms incl. LONG_MAX+-1 and 30-digit numbers, 26 malformed strings, and for the two KiB-valued options 23 magnitudes x 9 suffix spellings x 6 unit spellings around every overflow edge of N*2^10/2^20/2^30}: one variable in a private environment, all options re-initialised through the real mi_option_init, ALL options read back and compared with an independent reference parser (exact value, or default for malformed input; strings that are proper substrings of the boolean word lists are outside the claim); API round trips set/get/enable/disable/set_default incl. out-of-range indices; (b) values and look-alike variable names of every length 0..300 and 511..8193, 70000; (c) _mi_snprintf for every destination size 0..80 x {7 flag sets x 7 widths x 6 length modifiers x 9 conversions x boundary arguments} and the multi-conversion formats of the sources, destination ending exactly at a PROT_NONE page with a canary in front: no write outside, terminator at the returned length, output identical to the untruncated one when it fits; _mi_strlcpy/_mi_strlcat for all destination sizes 0..40 x source lengths 0..80; (d) mi_stats_get_json(n, buf) for every n from 0 to length+64 with the same placement, heap-allocated result syntactically valid JSON, mi_stats_print_out / mi_options_print chunks terminated, > 16 KiB through the delayed output buffer; (e) fresh processes with one MIMALLOC_* variable each (constructor path). The asan variant runs all of it under AddressSanitizer. distinct_nontrivial = cases counted by the harness as changing a value / exceeding a buffer.",
+        rule="(last case of the JSON section: the heap-allocated form of mi_stats_get_json when its buffer cannot grow -- the OS refuses new mappings, all spans of all segments are filled, only the 2 KiB and 4 KiB classes have one free block each between live neighbours: the text must end, terminated, inside the block it got, neighbours intact) (a) every option index and legacy name x {20 boolean spellings, 18 integer forms incl. LONG_MAX+-1 and 30-digit numbers, 26 malformed strings, and for the two KiB-valued options 23 magnitudes x 9 suffix spellings x 6 unit spellings around every overflow edge of N*2^10/2^20/2^30}: one variable in a private environment, all options re-initialised through the real mi_option_init, ALL options read back and compared with an independent reference parser (exact value, or default for malformed input; strings that are proper substrings of the boolean word lists are outside the claim); API round trips set/get/enable/disable/set_default incl. out-of-range indices; (b) values and look-alike variable names of every length 0..300 and 511..8193, 70000; (c) _mi_snprintf for every destination size 0..80 x {7 flag sets x 7 widths x 6 length modifiers x 9 conversions x boundary arguments} and the multi-conversion formats of the sources, destination ending exactly at a PROT_NONE page with a canary in front: no write outside, terminator at the returned length, output identical to the untruncated one when it fits; _mi_strlcpy/_mi_strlcat for all destination sizes 0..40 x source lengths 0..80; (d) mi_stats_get_json(n, buf) for every n from 0 to length+64 with the same placement, heap-allocated result syntactically valid JSON, mi_stats_print_out / mi_options_print chunks terminated, > 16 KiB through the delayed output buffer; (e) fresh processes with one MIMALLOC_* variable each (constructor path). The asan variant runs all of it under AddressSanitizer. distinct_nontrivial = cases counted by the harness as changing a value / exceeding a buffer.",
         samples=samples + exec_samples, exhaustive=not dl, oracle_checks=tot["checks"], exec_cases=execs, runs=per_run)
     return dict(coverage=cov, assumptions=COMMON_ASSUME[:1] + ["boolean substrings (e.g. 'E' parses as true through strstr) and leading blanks accepted by strtol are outside the claim", "values longer than 64 characters are truncated by the option buffer: only safety is checked for them"], violations=viol, infra=infra)
 
@@ -535,7 +578,7 @@ def run_C17(ctx):
             ("sec", "P9g", "S8", 4 if q else 6, pr, {}), ("dbg", "P9g", "S8", 4 if q else 5, pr, {})]
     grid = [("sec", "hardened", not q, {}), ("dbg", "hardened", not q, {})]
     return mixed_property(ctx, plan, grid,
-        rule="hardened grid kind 3 (control): an intact block of a page in the full queue, freed by another thread (the free goes through the owner's delayed list and a hardened build stores its link inside the block, shrinking the padding of requests below 8 bytes), owner collects: no report at all, block re-usable, neighbours intact. " + "size grid (mode hardened, every case in its own process): every requested size 1..130 and the boundary size grid up to 2 MiB x {foreign byte at offset = requested size, block freed by its own thread -> EFAULT; the same freed by another thread -> EFAULT; second free while a neighbour in the same page is live -> exactly one EAGAIN, afterwards two allocations return distinct non-overlapping blocks (secure build)}. Histories (forged link targets: another segment-sized region, a live block of another page, the gap between the start of the page's slice and its block area, an address 128 KiB further in the same segment; whenever a block whose link was forged is handed out again the number of such blocks must not exceed the number of EFAULT reports; profile P9g from start state S8 = 40-byte blocks, free list of the page empty): hardened builds (MI_SECURE=4 decides 'stays usable'; MI_DEBUG=3 the reports only), error callback registered: all sequences over {malloc(8000), malloc(100), fill(8 x 8000 = one page), free(i)} plus the three faults at every position the history allows: double_free(j) = second free of any of the six most recently released blocks that is still free while its page holds another live block (expected: exactly one EAGAIN and an unchanged allocator fingerprint); overflow_then_free(i) = one foreign byte at p[requested] of a block with slack, then free (expected: EFAULT); forge_link(j, target) = the free-list link of a released block overwritten with the encoding of an address outside its page (another segment, or a live block of another page) (expected: EFAULT when the allocator reaches it instead of following it). In the secure build exploration continues afterwards under the C01 oracle (no overlap, contents, accessibility) and every live block must lie in a heap region; in the debug build the branch ends after the first report.",
+        rule="hardened grid kind 4: a released block's link is overwritten and an older released block of the same page is freed again, so that the scan for the double free reaches the forged link: reported, not followed (the case ends at the report: two program faults at once are outside the consistency claim). hardened grid kind 3 (control): an intact block of a page in the full queue, freed by another thread (the free goes through the owner's delayed list and a hardened build stores its link inside the block, shrinking the padding of requests below 8 bytes), owner collects: no report at all, block re-usable, neighbours intact. " + "size grid (mode hardened, every case in its own process): every requested size 1..130 and the boundary size grid up to 2 MiB x {foreign byte at offset = requested size, block freed by its own thread -> EFAULT; the same freed by another thread -> EFAULT; second free while a neighbour in the same page is live -> exactly one EAGAIN, afterwards two allocations return distinct non-overlapping blocks (secure build)}. Histories (forged link targets: another segment-sized region, a live block of another page, the gap between the start of the page's slice and its block area, an address 128 KiB further in the same segment; whenever a block whose link was forged is handed out again the number of such blocks must not exceed the number of EFAULT reports; profile P9g from start state S8 = 40-byte blocks, free list of the page empty): hardened builds (MI_SECURE=4 decides 'stays usable'; MI_DEBUG=3 the reports only), error callback registered: all sequences over {malloc(8000), malloc(100), fill(8 x 8000 = one page), free(i)} plus the three faults at every position the history allows: double_free(j) = second free of any of the six most recently released blocks that is still free while its page holds another live block (expected: exactly one EAGAIN and an unchanged allocator fingerprint); overflow_then_free(i) = one foreign byte at p[requested] of a block with slack, then free (expected: EFAULT); forge_link(j, target) = the free-list link of a released block overwritten with the encoding of an address outside its page (another segment, or a live block of another page) (expected: EFAULT when the allocator reaches it instead of following it). In the secure build exploration continues afterwards under the C01 oracle (no overlap, contents, accessibility) and every live block must lie in a heap region; in the debug build the branch ends after the first report.",
         assumptions=COMMON_ASSUME + ["forged values that decode into the same page, and a second free after the whole page was released, are outside the claim and not generated"])
 
 def run_C15(ctx):
@@ -699,7 +742,7 @@ PROPS = {
         technique="exhaustive enumeration of (old size, new size, variant) triples plus bounded exhaustive operation sequences on the real allocator, with the heap walk as release oracle",
         text="All size pairs of the grid are re-allocated through the realloc family; contents, release-exactly-once (observed through mi_heap_visit_blocks), failure behaviour and mi_expand are checked on every case.",
         note="trusted: harness oracle; mi_heap_visit_blocks itself (decided separately by C12)"),
-    "C06": dict(level="model_checking", run=run_C06, replay=grid_replay, engine="seq-explorer",
+    "C06": dict(level="model_checking", run=run_C06, replay=replay_C06, engine="seq-explorer",
         technique="exhaustive enumeration of malformed/oversized argument tuples over boundary sets for every count*size, size and alignment entry point on the real allocator",
         text="Every tuple of the boundary product that is malformed must return NULL/EINVAL/ENOMEM and leave the observable heap (heap-walk block set, contents of live blocks, the block being re-allocated) unchanged; the converse grid shows well-formed requests succeed.",
         note="trusted: harness oracle; boundary sets are finite samples of the argument space chosen around every overflow edge"),
